@@ -338,7 +338,7 @@ func (t *translator) abstract(ty types.Type) bool {
 }
 
 func sanitize(s string) string {
-	r := strings.NewReplacer(".", "_", "/", "_", "-", "_", "*", "", "(", "", ")", "", "[", "_", "]", "_", " ", "")
+	r := strings.NewReplacer(".", "_", "/", "_", "-", "_", "*", "", "(", "", ")", "", "[", "_", "]", "_", " ", "", "{", "", "}", "", "&", "", ":", "", ",", "_")
 	return r.Replace(s)
 }
 
@@ -1059,17 +1059,39 @@ func (c *fctx) traceArg(a ast.Expr) (code string) {
 	if lt != "Int" && lt != "Bool" && lt != "String" && !c.t.abstract(tv.Type) {
 		return code
 	}
-	// Do not let a nested opaque call allocate parameters from here.
+	// Do not let a nested opaque call allocate parameters from here (under
+	// "refs" opaque values and untraced ("pure") calls may: they are then
+	// ordinary parameters whose value the trace shows).
 	savedN, savedO, savedP := c.nOpaque, len(c.opaque), c.partial
 	e := c.expr(a)
-	if e.partial || strings.Contains(e.code, "«call:") || c.nOpaque != savedN {
+	if e.partial || strings.Contains(e.code, "«call:") || (c.nOpaque != savedN && !c.t.refs) {
 		c.nOpaque, c.opaque, c.partial = savedN, c.opaque[:savedO], savedP
+		for k, v := range c.opaqueVals { // forget what was rolled back
+			if !c.declared(v) {
+				delete(c.opaqueVals, k)
+			}
+		}
+		for k, v := range c.opaqueCalls {
+			if !c.declared(v) {
+				delete(c.opaqueCalls, k)
+			}
+		}
 		return "\"_\""
 	}
 	if lt == "String" {
 		return e.code
 	}
 	return "(toString " + e.code + ")"
+}
+
+// declared reports whether the opaque parameter name is (still) a parameter.
+func (c *fctx) declared(name string) bool {
+	for _, p := range c.opaque {
+		if strings.HasPrefix(p, "("+name+" : ") {
+			return true
+		}
+	}
+	return false
 }
 
 func lastName(s string) string {
